@@ -35,11 +35,16 @@ const (
 	kOption
 	kTypeParam
 	nKinds
+	// embedded struct fields (not drawn at random by index; added explicitly)
+	kEmbedPriv  fieldKind = 100 // embedded struct whose fields are all private
+	kEmbedPub   fieldKind = 101 // embedded struct with public fields
+	kEmbedEmpty fieldKind = 102 // embedded empty struct: not part of tuples
 )
 
 var kindType = map[fieldKind]string{
 	kInt: "int", kString: "string", kBool: "bool", kNamed: "MyInt", kPtr: "*int", kSlice: "[]int", kArray: "[2]int",
 	kMap: "map[string]int", kFunc: "func()", kChan: "chan int", kAny: "any", kOption: "fp.Option[int]", kTypeParam: "T",
+	kEmbedPriv: "EmbP", kEmbedPub: "EmbQ", kEmbedEmpty: "EmbE",
 }
 
 type fieldSpec struct {
@@ -48,6 +53,7 @@ type fieldSpec struct {
 	tag  string
 }
 
+func (f fieldSpec) embedded() bool   { return f.kind >= kEmbedPriv }
 func (f fieldSpec) private() bool    { return f.name[0] >= 'a' && f.name[0] <= 'z' }
 func (f fieldSpec) underscore() bool { return f.name[0] == '_' }
 func (f fieldSpec) public() bool     { return f.name[0] >= 'A' && f.name[0] <= 'Z' }
@@ -80,7 +86,7 @@ func (s structSpec) builder() string {
 func (s structSpec) visible() []fieldSpec {
 	var out []fieldSpec
 	for _, f := range s.fields {
-		if !f.underscore() {
+		if !f.underscore() && f.kind != kEmbedEmpty {
 			out = append(out, f)
 		}
 	}
@@ -105,6 +111,10 @@ func (s structSpec) source() string {
 		tag := ""
 		if f.tag != "" {
 			tag = " `" + f.tag + "`"
+		}
+		if f.embedded() {
+			sb.WriteString(fmt.Sprintf("\t%s\n", kindType[f.kind]))
+			continue
 		}
 		sb.WriteString(fmt.Sprintf("\t%s %s%s\n", f.name, kindType[f.kind], tag))
 	}
@@ -147,6 +157,12 @@ func mkExpr(f fieldSpec, tag string) string {
 		return "vhAny(" + n + ")"
 	case kOption:
 		return "vhOpt(" + n + ")"
+	case kEmbedPriv:
+		return "EmbP{p1: zz.Int(" + n + "+\".p1\"), p2: zz.Str(" + n + "+\".p2\", 1)}"
+	case kEmbedPub:
+		return "EmbQ{Q1: zz.Int(" + n + "+\".q1\")}"
+	case kEmbedEmpty:
+		return "EmbE{}"
 	}
 	return "nil"
 }
@@ -370,7 +386,7 @@ func (s structSpec) harness(pkg string) string {
 
 func mkProgram(pkg string, structs []structSpec, desc string) Program {
 	var src strings.Builder
-	src.WriteString("package " + pkg + "\n\nimport \"github.com/csgura/fp\"\n\n//go:generate gombok\n\nvar _ fp.Unit\n\ntype MyInt int\n\n")
+	src.WriteString("package " + pkg + "\n\nimport \"github.com/csgura/fp\"\n\n//go:generate gombok\n\nvar _ fp.Unit\n\ntype MyInt int\n\ntype EmbP struct {\n\tp1 int\n\tp2 string\n}\n\ntype EmbQ struct {\n\tQ1 int\n}\n\ntype EmbE struct{}\n\n")
 	for _, s := range structs {
 		src.WriteString(s.source())
 	}
@@ -400,6 +416,8 @@ func fixedPrograms() [][]structSpec {
 		{{name: "Mixed", fields: []fieldSpec{{"Id", kInt, ""}, {"name", kString, ""}, {"_c", kBool, ""}, {"Data", kSlice, ""}, {"cb", kFunc, ""}}, json: true, labelled: false}},
 		// field names that coincide with identifiers the generator uses itself (receiver r, parameters t/m/v, ok)
 		{{name: "Names", fields: []fieldSpec{{"r", kInt, ""}, {"t", kString, ""}, {"m", kInt, ""}, {"v", kOption, ""}, {"ok", kBool, ""}}}},
+		{{name: "Emb", fields: []fieldSpec{{"title", kString, ""}, {"EmbP", kEmbedPriv, ""}, {"EmbQ", kEmbedPub, ""}, {"EmbE", kEmbedEmpty, ""}, {"n", kInt, ""}}}},
+		{{name: "EmbJson", fields: []fieldSpec{{"EmbQ", kEmbedPub, ""}, {"k", kInt, ""}, {"EmbP", kEmbedPriv, ""}}, json: true}},
 		{{name: "GenRefs", fields: []fieldSpec{{"v", kTypeParam, ""}, {"p", kPtr, ""}, {"w", kTypeParam, ""}}, generic: true}},
 	}
 }
@@ -452,6 +470,10 @@ func randomStruct(r *rand.Rand, name string) structSpec {
 			tag = strings.Trim(tag, "`")
 		}
 		s.fields = append(s.fields, fieldSpec{base, k, tag})
+	}
+	if !s.labelled && r.Intn(4) == 0 {
+		k := []fieldKind{kEmbedPriv, kEmbedPub, kEmbedEmpty}[r.Intn(3)]
+		s.fields = append(s.fields, fieldSpec{kindType[k], k, ""})
 	}
 	// at least one visible field
 	vis := false
